@@ -26,13 +26,25 @@ Workers(k) == {1, 2} \cup {w \in 3..MaxW : StepOf(k, w) # StepOf(k, w - 1)}
 \* positions whose branch is checked for large n: the first, the middle, and positions at growing
 \* distances from the right edge (odd-sized levels put the self-paired node at the right edge)
 Pos(k) == IF k <= BranchAll THEN 0..(k - 1)
-          ELSE {p \in {0, k \div 2} \cup {k - 2 ^ j : j \in {0, 1, 2, 3, 5, 7, 9}} : p >= 0 /\ p < k}
+          ELSE {p \in {0, k \div 2} \cup {k - 2 ^ j : j \in {0, 1, 2, 5, 9}} : p >= 0 /\ p < k}
 
 ParEqSeq  == \A w \in Workers(n) : ChunkRoot(Leaves(n), w) = SeqRoot(Leaves(n))
-CompEqSeq == CompRoot(Leaves(n)) = SeqRoot(Leaves(n))
+CompEqSeq == LET c == Comp(Leaves(n), -1) IN c.root = SeqRoot(Leaves(n)) /\ ~c.mutated
 BranchOK  == \A p \in Pos(n) : FromBranch(Branch(Leaves(n), p), Leaf(p + 1), p) = SeqRoot(Leaves(n))
-\* distinct leaves are never flagged (sanity of the transcription, not part of the property)
-NoFlag    == ~Mutated(Leaves(n))
+\* (~c.mutated: distinct leaves are never flagged -- sanity of the transcription, not part of the property)
+\* the capped regime inside TLC's bounds: scaled tuning constants (cap 2, 4, 8 in the role of the
+\* code's 256; sequential threshold 1 and 5 in the role of 80), every worker count
+ScaledMax == 72
+ScaledParEqSeq == n <= ScaledMax =>
+   \A cap \in {2, 4, 8}, sm \in {1, 5}, w \in 2..(n + 1) :
+      ChunkRootC(Leaves(n), w, cap, sm) = SeqRoot(Leaves(n))
+\* ... and the tuning constants are not arbitrary: the cap MUST be a power of two (with cap 5 or 6
+\* the chunks stop being subtrees), and a single leaf must stay on the sequential path (the chunked
+\* path would pair it with itself)
+CapMustBePow2 == /\ IsPow2(CodeCap) /\ CodeSeqMax >= 1
+                 /\ ChunkRootC(Leaves(20), 2, 5, 1) # SeqRoot(Leaves(20))
+                 /\ ChunkRootC(Leaves(27), 2, 6, 1) # SeqRoot(Leaves(27))
+                 /\ ChunkRootC(Leaves(1), 2, 4, 0) # SeqRoot(Leaves(1))
 \* a list and its explicit duplicated-tail expansions collide, and every expansion is flagged
 DupFlag   == n <= BranchAll => \A l \in DupClosure({Leaves(n)}) \ {Leaves(n)} :
                                   SeqRoot(l) = SeqRoot(Leaves(n)) /\ Mutated(l) /\ CompRoot(l) = SeqRoot(l)
